@@ -90,7 +90,8 @@ def none_iff_stream_empty(result, rem0):
 
 @refine.ensures
 def returns_first_char_and_leaves_the_rest(self, it, result, rem0):
-    return implies(not is_none(result), result == head(rem0) and rem(self, it) == tail(rem0))
+    # stated as a recomposition (one character + what remains == what remained), which string solvers decide at once
+    return implies(not is_none(result), len(result) == 1 and rem0 == result + rem(self, it))
 
 
 @refine.ensures
